@@ -14,24 +14,24 @@ from . import common
 def check(chk: Check) -> None:
     F = chk.facts
     R1 = chk.rule('C01.R1', 'charge-first: on every path of every eval override the first effect is exactly one '
-                            '+1 increment of the given state\'s op counter, outside any loop', floor=12)
+                            '+1 increment of the given state\'s op counter, outside any loop', floor=8)
     R2 = chk.rule('C01.R2', 'every node kind the grammar can build, every default-factory node and every class with '
-                            'an eval method belongs to the Op hierarchy', floor=13)
+                            'an eval method belongs to the Op hierarchy', floor=10)
     R3 = chk.rule('C01.R3', 'exact threshold: the increment is followed by one comparison equivalent to '
                             'ops - max >= 0 whose true branch raises the ops-limit ParserError and does nothing else',
-                  floor=13)
+                  floor=8)
     R4 = chk.rule('C01.R4', 'SqParser.eval builds a fresh VMState per call whose budget is the unmodified '
                             'max_ops_evaluated parameter and passes that same state to every tree evaluation',
-                  floor=3)
+                  floor=2)
     R5 = chk.rule('C01.R5', 'nobody else touches the counters: one store to ops_evaluated (the increment), no store '
-                            'to max_ops_evaluated, its only loads are the comparison and the message', floor=3)
+                            'to max_ops_evaluated, its only loads are the comparison and the message', floor=2)
     R6 = chk.rule('C01.R6', 'lambda bodies are charged: a closure created by an eval method evaluates its body '
                             'through <Op field>.eval(state) on every invocation', floor=1)
     R7 = chk.rule('C01.R7', 'the VM state does not outlive its eval call: it is not captured by an escaping '
-                            'closure nor stored anywhere', floor=12)
+                            'closure nor stored anywhere', floor=8)
     R8 = chk.rule('C01.R8', 'the ops-limit error is never swallowed: no handler in code that runs during an evaluation catches '
                             'the ops-limit class (ParserError, Exception, bare except ...) and then continues or raises '
-                            'something else', floor=8)
+                            'something else', floor=2)
     chk.decided += ['who charges, when, by how much, with which comparison, against which number (R1,R3,R5)',
                     'propagation of the ops-limit error through every handler on the evaluation paths (R8)',
                     'budget forwarded unmodified into a fresh state (R4)', 'lambda bodies charged (R6)',
